@@ -112,29 +112,66 @@ func describe(h [][]int64, upto int, shift uint) string {
 	return s
 }
 
-// checkRates compares the three window rates (already divided by the public scaling) with the
-// specification; cur holds the value each window reported after the previous observation.
-func checkRates(cs *kxCase, k int, e []int64, obs [3]float64, cur *[3]float64, scale float64, shift uint, who string) *rp.Result {
+// meterView is what the replayer remembers of one meter between observations: the value each
+// window reported after the previous observation, and the windows that are no longer compared
+// because the property left the meter a choice the replayer cannot see (see f = 2 below).
+type meterView struct {
+	cur   [3]float64
+	loose [3]bool
+}
+
+// checkRates compares the three window rates with the specification.
+//   f = 1: the window samples: its rate is n/w (or a/w where the two readings of "increase" differ)
+//   f = 0: the window does not sample: its rate is what it was
+//   f = 2: the window's own length has elapsed but a shorter window did not sample (the library's
+//          cascade does not consult it) or the counter reads 0 (the library does not sample then).
+//          The property does not forbid a meter that samples it. Both are accepted; if the meter
+//          may have sampled, its window state is unknown from here on and the window is only
+//          checked for finite, non-negative values.
+func checkRates(cs *kxCase, k int, e []int64, obs [3]float64, mv *meterView, scale float64, shift uint, who string) *rp.Result {
 	for w := 0; w < 3; w++ {
 		o := obs[w]
 		if !sane(o) {
 			r := rp.Fail(0, "%s: %s rate after observation %d is %v: not finite and non-negative; history:%s", who, winName[w], k, o, describe(cs.H, k, shift))
 			return &r
 		}
-		if e[eF1+w] == 1 {
-			exp := rateOf(e[eN1+w], cs.W[w], scale, 1, 1)
-			alt := rateOf(e[eA1+w], cs.W[w], scale, 1, 1)
+		if mv.loose[w] {
+			mv.cur[w] = o
+			continue
+		}
+		exp := rateOf(e[eN1+w], cs.W[w], scale, 1, 1)
+		alt := rateOf(e[eA1+w], cs.W[w], scale, 1, 1)
+		switch e[eF1+w] {
+		case 1:
 			if !closeTo(o, exp) && !closeTo(o, alt) {
 				r := rp.Fail(0, "%s: %s window sampled at observation %d: rate %v, want %v (growth*1000/window = %d/%d%s); history:%s",
 					who, winName[w], k, o, exp, e[eN1+w], cs.W[w], altNote(e[eN1+w], e[eA1+w]), describe(cs.H, k, shift))
 				return &r
 			}
-		} else if !closeTo(o, cur[w]) {
-			r := rp.Fail(0, "%s: %s window must not sample at observation %d (its rate stays %v) but the rate is now %v; history:%s",
-				who, winName[w], k, cur[w], o, describe(cs.H, k, shift))
-			return &r
+		case 0:
+			if !closeTo(o, mv.cur[w]) {
+				r := rp.Fail(0, "%s: %s window must not sample at observation %d (its rate stays %v) but the rate is now %v; history:%s",
+					who, winName[w], k, mv.cur[w], o, describe(cs.H, k, shift))
+				return &r
+			}
+		case 2:
+			sampled := closeTo(o, exp) || closeTo(o, alt)
+			if !sampled && !closeTo(o, mv.cur[w]) {
+				r := rp.Fail(0, "%s: %s window at observation %d: rate %v is neither the previous rate %v nor the rate of a sample now, %v; history:%s",
+					who, winName[w], k, o, mv.cur[w], exp, describe(cs.H, k, shift))
+				return &r
+			}
+			if sampled {
+				mv.loose[w] = true
+				if e[eCnt] == 0 {
+					// a meter that samples a zero counter may start all windows afresh afterwards
+					mv.loose = [3]bool{true, true, true}
+				}
+			}
+		default:
+			broken("entry %d: f=%d", k, e[eF1+w])
 		}
-		cur[w] = o
+		mv.cur[w] = o
 	}
 	return nil
 }
@@ -174,7 +211,7 @@ func replayHook(cs *kxCase, shift uint) *rp.Result {
 	}
 	base := time.Unix(1600000000, 0)
 	scale := math.Ldexp(1, int(shift))
-	var cur [3]float64
+	var cur meterView
 	for k, e := range cs.H {
 		if e[eKind] == 1 {
 			m.SetStarted(true)
@@ -246,7 +283,7 @@ func replayPublic(cs *kxCase, kind string) *rp.Result {
 	// clock) sees a positive time since the first non-zero observation; base carries a monotonic
 	// reading, so elapsed times do not depend on wall-clock adjustments.
 	base := time.Now().Add(-time.Duration(total+2000) * time.Millisecond)
-	var cur [3]float64
+	var cur meterView
 	started := false
 	for k, e := range cs.H {
 		if e[eKind] == 1 {
@@ -283,9 +320,9 @@ func replayPublic(cs *kxCase, kind string) *rp.Result {
 				r := rp.Fail(0, "%s: reading the %s rate after Start panics: %v; history:%s", p.who, winName[w], why, describe(cs.H, k, 0))
 				return &r
 			}
-			exp := cur[w] * float64(p.mul) / float64(p.div)
+			exp := cur.cur[w] * float64(p.mul) / float64(p.div)
 			if !sane(v) || !closeTo(v, exp) {
-				r := rp.Fail(0, "%s: %s rate reads %v, want %v (= %v per second x %d/%d); history:%s", p.who, winName[w], v, exp, cur[w], p.mul, p.div, describe(cs.H, k, 0))
+				r := rp.Fail(0, "%s: %s rate reads %v, want %v (= %v per second x %d/%d); history:%s", p.who, winName[w], v, exp, cur.cur[w], p.mul, p.div, describe(cs.H, k, 0))
 				return &r
 			}
 		}
